@@ -78,6 +78,61 @@ def main():
     bad = os.path.join(wd, "chains.short.trace"); open(bad, "w").write("\n".join(la[:-1]) + "\n")
     r = fresh("sb"); core.same_bits(r, ta["sse2"], bad, "sse2", "short"); good &= expect("Trace_SameBits last event missing", r, True)
 
+
+    # ---- the recorded-event trace specifications: accept the recording, reject it after ONE field of ONE event is changed ------------
+    core.build_all(["sse2"], ["rec", "hid"])
+
+    def flip_lane(w):
+        """the smallest change of a logged float lane [s, e, limb...]: the lowest significand bit (or the sign for zero / inf)"""
+        w = list(w)
+        if len(w) >= 3:
+            w[2] ^= 1
+        elif len(w) >= 1:
+            w[0] ^= 1
+        return w
+
+    def one(mode, module, draws, pick, mutate, env=None, label=None):
+        nonlocal good
+        tr = os.path.join(wd, f"rec.{mode}.ndjson")
+        p = core.run_bin("sse2", "rec", [mode, tr, "11", str(draws)], env_extra=env)
+        if p.returncode != 0:
+            print("tool error: rec", mode, p.stderr[-300:]); good = False; return
+        lines = open(tr).read().splitlines()
+        r = fresh(mode); core.validate_trace(r, module, tr, f"{mode}.good"); good &= expect(f"{module} {label or mode} recording ({len(lines)} events)", r, False)
+        k = next(i for i, l in enumerate(lines) if i >= len(lines) // 3 and pick(json.loads(l)))
+        ev = mutate(json.loads(lines[k]))
+        bad = os.path.join(wd, f"rec.{mode}.bad.ndjson"); open(bad, "w").write("\n".join(lines[:k] + [json.dumps(ev)] + lines[k + 1:]) + "\n")
+        r = fresh(mode); core.validate_trace(r, module, bad, f"{mode}.bad"); good &= expect(f"{module} {label or mode}: one field of event {k + 1} changed", r, True)
+
+    def m_got_lane(ev):
+        ev["got"][0] = flip_lane(ev["got"][0]); return ev
+    one("float", "Trace_Lanes", 1, lambda e: e["k"] == "f2" and e["op"] == "add" and len(e["got"][0]) >= 3, m_got_lane)
+    def m_int(ev):
+        ev["got"][0] = [ev["got"][0][0] ^ 1] + ev["got"][0][1:] if len(ev["got"][0]) > 1 else [0, 1]; return ev
+    one("int", "Trace_Lanes", 1, lambda e: e["k"] == "i2" and e["out"] == "val" and e["op"] == "wrapping_add", m_int)
+    def m_out(ev):
+        ev["out"] = "val"; ev["got"] = [[0]] * ev["n"]; return ev
+    one("int", "Trace_Lanes", 1, lambda e: e["k"] == "i2" and e["out"] == "panic", m_out, label="int (a logged panic replaced by a value)")
+    def m_scalar_exp(ev):
+        g = list(ev["got"]); g[1] += 1; ev["got"] = g; return ev
+    one("poly", "Trace_Poly", 1, lambda e: e["op"] == "det" and len(e["got"]) >= 3, m_scalar_exp)
+    def m_mat_entry(ev):
+        ev["got"][1][0] = flip_lane(ev["got"][1][0]); ev["got"][1][0][1] += 2; return ev
+    one("poly", "Trace_Poly", 1, lambda e: e["op"] == "mat_mul" and e["ty"] == "Mat3A", m_mat_entry, label="poly (matrix entry)")
+    def m_rel(ev):
+        g = list(ev["got"][0]); g[1] += 1; ev["got"][0] = g; return ev
+    one("rel", "Trace_Rel", 1, lambda e: e["op"] == "normalize" and len(e["got"][0]) >= 3, m_rel, env={"HX_OPS": "normalize,move_towards,slerp8"})
+    def m_slerp(ev):
+        ev["r"][3], ev["r"][4] = ev["r"][4], ev["r"][3]; return ev          # two interpolation results exchanged
+    one("rel", "Trace_Rel", 1, lambda e: e["op"] == "slerp8", m_slerp, env={"HX_OPS": "normalize,move_towards,slerp8"}, label="rel (slerp results 3/8 and 4/8 exchanged)")
+    def m_obs(ev):
+        ev["obs"][0], ev["obs"][1] = ev["obs"][1], ev["obs"][0]; return ev
+    one("acc", "Trace_C17", 1, lambda e: e["op"] == "read" and e["obs"][0] != e["obs"][1], m_obs)
+    one("macc", "Trace_C06", 1, lambda e: e["op"] == "read" and e["path"] == "rows" and e["obs"][0] != e["obs"][1], m_obs)
+    def m_write_lane(ev):
+        ev["lane"] = (ev["lane"] + 1) % 2; return ev
+    one("acc", "Trace_C17", 1, lambda e: e["op"] == "write" and e["obs"][0] != e["obs"][1], m_write_lane, label="acc (a write attributed to another lane)")
+
     print("SELFTEST", "PASSED" if good else "FAILED")
     return 0 if good else 1
 
